@@ -59,28 +59,31 @@ def make_responder(transport, payload_fn=None):
         return RtuResponder(payload_fn)
     if transport == "tcp":
         return TcpResponder(payload_fn)
-    return Aa55Responder(payload_fn)
+    return Aa55Responder(payload_fn)     # "aa55" (UDP) and "aa55tcp" (ES family object created with port 502)
 
 
-def make_protocol(transport, T, R, keep, comm_addr=0xF7):
+def make_protocol(transport, T, R, keep, comm_addr=0xF7, host="192.0.2.1"):
     from goodwe.protocol import TcpInverterProtocol, UdpInverterProtocol
-    if transport == "tcp":
-        p = TcpInverterProtocol("192.0.2.1", 502, comm_addr, T, R)
+    if transport in ("tcp", "aa55tcp"):
+        p = TcpInverterProtocol(host, 502, comm_addr, T, R)
     else:
-        p = UdpInverterProtocol("192.0.2.1", 8899, comm_addr, T, R)
+        p = UdpInverterProtocol(host, 8899, comm_addr, T, R)
     p.keep_alive = keep
     return p
 
 
-def make_endpoint(transport, T, R, keep, api=False):
+HOSTS = ("192.0.2.1", "inverter.local", "goodwe-inverter", "192.0.2.001", "3221225985")   # all resolve to 192.0.2.1 (vloop.DEFAULT_RESOLVE)
+
+
+def make_endpoint(transport, T, R, keep, api=False, host="192.0.2.1"):
     """(protocol object, execute(command) -> coroutine).  api=True routes the request through an inverter object
     (Inverter._read_from_socket, the funnel of every public call) instead of ProtocolCommand.execute on a bare protocol."""
     if api:
         from vlib import siminv
-        inv = siminv.make_inverter("ES" if transport == "aa55" else "ET", transport == "tcp", T, R)
+        inv = siminv.make_inverter("ES" if transport in ("aa55", "aa55tcp") else "ET", transport in ("tcp", "aa55tcp"), T, R, host=host)
         inv._protocol.keep_alive = keep
         return inv._protocol, inv._read_from_socket
-    protocol = make_protocol(transport, T, R, keep)
+    protocol = make_protocol(transport, T, R, keep, host=host)
     return protocol, (lambda cmd: cmd.execute(protocol))
 
 
@@ -89,7 +92,7 @@ def make_command(transport, protocol, spec=None):
              ("aa55", payload_hex, response_type_hex)"""
     from goodwe.protocol import Aa55ProtocolCommand
     if spec is None:
-        spec = ("aa55", "010600", "0186") if transport == "aa55" else ("read", 35100, 3)
+        spec = ("aa55", "010600", "0186") if transport in ("aa55", "aa55tcp") else ("read", 35100, 3)
     if spec[0] == "aa55":
         return Aa55ProtocolCommand(spec[1], spec[2])
     if spec[0] == "read":
@@ -112,7 +115,7 @@ def run_single(case, *, payload_fn=None, command=None, idle=True):
     peer = ScriptedPeer(responder, to_actions(case.get("script", []), T), default=("drop",))
     world = World(peer, connect_latency=case.get("latency", 0), connect_script=case.get("connect"))
     loop = VLoop(world, max_time=1e5)
-    protocol, execute = make_endpoint(transport, T, R, case.get("keep", False), case.get("api", False))
+    protocol, execute = make_endpoint(transport, T, R, case.get("keep", False), case.get("api", False), case.get("host", "192.0.2.1"))
     cmd = make_command(transport, protocol, command)
     out = loop.run(execute(cmd))
     obs = Obs()
@@ -135,7 +138,7 @@ def same_request(transport, a: bytes, b: bytes) -> bool:
     """Transmissions of one request must be identical (Modbus/TCP: apart from the transaction id)."""
     if transport == "tcp":
         return a[2:] == b[2:]
-    return a == b
+    return a == b      # AA55 frames carry no transaction id, whatever transport they travel on
 
 
 # ---------------------------------------------------------------------------------------------
@@ -159,7 +162,7 @@ def run_sequence(case, *, payload_fn=None, target=None):
     responder = make_responder(transport, payload_fn)
     peer = ScriptedPeer(responder, [], default=("drop",))
     world = World(peer, connect_latency=case.get("latency", 0))
-    protocol, execute = make_endpoint(transport, T, R, case.get("keep", False), case.get("api", False))
+    protocol, execute = make_endpoint(transport, T, R, case.get("keep", False), case.get("api", False), case.get("host", "192.0.2.1"))
     results = []
     errors = []
     steps = list(case["steps"])
@@ -253,12 +256,12 @@ def run_sequence(case, *, payload_fn=None, target=None):
 class Session:
     """One protocol object, one peer/world, a current virtual loop; steps are executed one at a time."""
 
-    def __init__(self, transport, T, R, keep, latency=0, payload_fn=None, api=False):
+    def __init__(self, transport, T, R, keep, latency=0, payload_fn=None, api=False, host="192.0.2.1"):
         self.transport, self.T, self.R, self.keep, self.api = transport, T, R, keep, api
         self.responder = make_responder(transport, payload_fn)
         self.peer = ScriptedPeer(self.responder, [], default=("drop",))
         self.world = World(self.peer, connect_latency=latency)
-        self.protocol, self.execute = make_endpoint(transport, T, R, keep, api)
+        self.protocol, self.execute = make_endpoint(transport, T, R, keep, api, host)
         self.loop = VLoop(self.world, max_time=1e5)
         self.errors = []
         self.steps = []
@@ -288,6 +291,33 @@ class Session:
         ro.connects = list(self.world.connect_attempts[c0:])
         ro.open_after = set(self.world.open)
         return ro
+
+    def request_pair(self, offset_ticks=1, default=("answer", 2 / 16.0)):
+        """Two overlapping callers in the current loop (the second starts offset_ticks later), both answered promptly.
+        Returns the list of outcome kinds ("ok" or the exception type name)."""
+        import asyncio
+        self.steps.append({"op": "pair", "offset": offset_ticks})
+        self.peer.set_script([], default=tuple(default))
+        self.world.connect_script = []
+        cmds = [make_command(self.transport, self.protocol, None), make_command(self.transport, self.protocol, None)]
+
+        async def one(i):
+            await asyncio.sleep(secs(i * offset_ticks, self.T))
+            try:
+                await self.execute(cmds[i])
+                return "ok"
+            except BaseException as ex:      # noqa: B036 - reported as the outcome kind, nothing is swallowed
+                return type(ex).__name__
+
+        async def both():
+            return await asyncio.gather(one(0), one(1))
+
+        out = self._run(both())
+        if out.hang is not None:
+            return ["hang", "hang"], out
+        if out.exc is not None:
+            return [type(out.exc).__name__] * 2, out
+        return list(out.result), out
 
     def close(self):
         self.steps.append({"op": "close"})
